@@ -105,6 +105,9 @@ impl FromDict for Function {
                     _ => bail!("unknown dimensions")
                 };
                 let mut parts = Vec::with_capacity(n_dim);
+                if raw.domain.len() < 2 {
+                    bail!("function with a /Domain of {} numbers", raw.domain.len());
+                }
                 let input_range = (raw.domain[0], raw.domain[1]);
                 for dim in 0 .. n_dim {
                     let output_range = (
@@ -139,7 +142,7 @@ impl Object for Function {
                         let s = std::str::from_utf8(&data)?;
                         let func = PsFunc::parse(s)?;
                         let info = stream.info.info;
-                        Ok(Function::PostScript { func, domain: info.domain, range: info.range.unwrap() })
+                        Ok(Function::PostScript { func, domain: info.domain, range: try_opt!(info.range) })
                     },
                     0 => {
                         let info = stream.info.info;
